@@ -13,3 +13,4 @@ assert sorted(ids)==sorted(set(ids)) and len(ids)==39, ids
 print('manifest valid: checks=%d not_applicable=%d evidence_bad=%d'%(len(m['checks']),len(m.get('not_applicable',[])),bad))
 sys.exit(1 if bad else 0)
 P
+./bin/gmcheck -lintmutants >/dev/null || { ./bin/gmcheck -lintmutants; exit 1; }
